@@ -34,6 +34,8 @@ const (
 	keyReplayBelow = "applied-entry-le-stored-sequence"
 	keyLost        = "entry-neither-flushed-nor-replayable"
 	keyNotReplayed = "entry-missing-after-replay"
+	keyGap         = "entry-lost-flush-between-memdb-lookup-and-writer-registration"
+	keyNoName      = "entry-unresolvable-by-name-after-replay"
 )
 
 // ---------------------------------------------------------------- shadow of the dictionaries
@@ -166,7 +168,12 @@ type caseRun struct {
 	sh      *shadow
 	tainted bool // a (known) loss of names happened: ids get reused from here on, stop the case
 	broken  bool // harness-level problem: stop the case
-	imgSeq  int
+	expired bool // the family's write window closed long ago: the WAL garbage collector may remove its log
+	// terminal: the node was recovered from an image taken INSIDE a dictionary / table flush; the
+	// name-level model no longer tracks the durable dictionaries, only replay + final checks follow
+	terminal bool
+	lossFate map[int64]string // entry -> stable key of a loss the harness provoked on purpose
+	innerK   int              // table-file index for the next crash inside a flush call (-1: random)
 }
 
 func (r *caseRun) failHarness(what string, err error) {
@@ -197,7 +204,7 @@ func (r *caseRun) start() bool {
 		r.failHarness("mkdir", err)
 		return false
 	}
-	if r.n, err = openNode(root, r.famTime); err != nil {
+	if r.n, err = openNode(root, r.famTime, r.expired); err != nil {
 		r.failHarness("open node", err)
 		return false
 	}
@@ -224,6 +231,9 @@ func (r *caseRun) guard(what string, f func() error) bool {
 }
 
 func (r *caseRun) opAppend(m, t int) {
+	if r.n.part == nil {
+		return
+	}
 	e := entry{Seq: int64(len(r.entries)), Metric: m, Tagv: t}
 	if !r.guard("append", func() error { return r.n.appendEntry(e) }) {
 		return
@@ -248,44 +258,218 @@ func (r *caseRun) nextEntry() (entry, bool) {
 	return r.entries[s], true
 }
 
-// accepted bookkeeping after an entry's rows were written and its sequence committed
-func (r *caseRun) recordApplied(e entry, before positions) {
-	if before.hasStored && e.Seq <= before.stored {
-		r.c.Fail(keyReplayBelow, fmt.Sprintf("entry %d was applied although the stored sequence is %d", e.Seq, before.stored))
-	}
+// onWritten: bookkeeping right after WriteRows of entry e returned (its sequence is not committed yet).
+// dropped: the harness knows the rows went into a memory database that had already been flushed and closed.
+func (r *caseRun) onWritten(e entry, dropped bool) {
 	r.sh.addNames(e)
-	r.sh.mem = append(r.sh.mem, e.Seq)
-	id := r.n.liveIDs(e)
-	if !id.ok {
-		r.failHarness("live ids", fmt.Errorf("names of entry %d do not resolve on the live node right after its write", e.Seq))
+	if !dropped {
+		r.sh.mem = append(r.sh.mem, e.Seq)
+	}
+	live := r.n.liveIDs(e)
+	if len(live) == 0 {
+		// the write path itself just created / looked up these names: a lookup by name must find them
+		_, _, err := r.n.resolve(e)
+		r.c.Fail(keyNoName, fmt.Sprintf("entry %d (%s host=%s): right after its rows were written on this node a lookup by metric name and tag does not find its series: %v",
+			e.Seq, metricName(e.Metric), tagValue(e.Tagv), err))
+		r.tainted = true
 		return
 	}
-	for _, x := range r.ids[e.Seq] {
-		if x == id {
-			return
+	for _, id := range live {
+		dup := false
+		for _, x := range r.ids[e.Seq] {
+			if x == id {
+				dup = true
+			}
+		}
+		if !dup {
+			r.ids[e.Seq] = append(r.ids[e.Seq], id)
 		}
 	}
-	r.ids[e.Seq] = append(r.ids[e.Seq], id)
 }
 
-// opApply = one iteration of the partition's replica loop on the real partition.
-func (r *caseRun) opApply() {
+// places inside localReplicator.Replica where a whole family.Flush can be injected
+const (
+	injNone         = 0
+	injBeforeWrite  = 1 // after ValidateSequence, before WriteRows looks the memory database up
+	injGap          = 2 // inside WriteRows: memory database looked up, writer not yet registered
+	injBeforeCommit = 3 // after WriteRows, before CommitSequence (observation b)
+)
+
+// flushObs is what one dataFamily.Flush let the harness observe.
+type flushObs struct {
+	before    positions
+	mid, post *positions
+	after     positions
+}
+
+// runFlush calls family.Flush and records the positions at its steps (no ops are emitted).
+func (r *caseRun) runFlush() (o flushObs, ok bool) {
+	o.before = r.n.pos()
+	r.n.midFlush = func() {
+		if o.mid == nil {
+			p := r.n.pos()
+			o.mid = &p
+		}
+	}
+	r.n.postAck = func() {
+		if o.post == nil {
+			p := r.n.pos()
+			o.post = &p
+		}
+	}
+	ok = r.guard("flush family", r.n.flushFamily)
+	r.n.midFlush, r.n.postAck = nil, nil
+	o.after = r.n.pos()
+	return o, ok
+}
+
+func (r *caseRun) emitFreeze(o flushObs) { r.c.Op("freeze", o.before.String()) }
+func (r *caseRun) emitCommitAck(o flushObs) {
+	if o.mid == nil {
+		r.c.Op("dcommit", o.after.String())
+		r.c.Op("ack", o.after.String())
+		return
+	}
+	r.c.Op("dcommit", o.mid.String())
+	if o.post != nil {
+		r.c.Op("ack", o.post.String())
+	} else {
+		r.c.Op("ack", o.after.String())
+	}
+}
+
+// opApply = one iteration of the partition's replica loop on the real partition (Consume, GetMessage,
+// localReplicator.Replica). With inj != injNone a whole family.Flush runs at the chosen place INSIDE
+// Replica (the partition's DataFamily is a forwarding wrapper; the gap inside WriteRows is reached
+// through the verifhook yield point) and the steps are reported one by one.
+func (r *caseRun) opApply() { r.opApplyInj(injNone) }
+
+func (r *caseRun) opApplyInj(inj int) {
 	e, ok := r.nextEntry()
 	if !ok {
 		return
 	}
 	before := r.n.pos()
-	if !r.guard("apply", func() error { return r.n.applyNext(e) }) {
+	h := r.n.hooks
+	valid := false
+	fine := inj != injNone
+	var gapPos positions
+	var gapObs flushObs
+	gapDone := make(chan struct{})
+	gapStarted, gapInside, gapHadRows := false, false, false
+	h.afterValidate = func(_ int64, ok bool) {
+		valid = ok
+		if fine {
+			r.c.Op("begin", r.n.pos().String())
+		}
+	}
+	h.beforeWrite = func() {
+		if inj == injBeforeWrite {
+			if o, ok := r.runFlush(); ok {
+				r.sh.freeze(r.entries)
+				r.emitFreeze(o)
+				r.emitCommitAck(o)
+				r.c.Branch("flush-between-validate-and-write")
+			}
+		}
+	}
+	h.inGap = func() {
+		if !fine {
+			return
+		}
+		gapPos = r.n.pos()
+		r.c.Op("take", gapPos.String())
+		if inj != injGap {
+			return
+		}
+		gapStarted = true
+		gapHadRows = len(r.sh.mem) > 0
+		go func() {
+			defer close(gapDone)
+			gapObs, _ = r.runFlush()
+		}()
+		select {
+		case <-gapDone:
+			// the whole flush ran although WriteRows already holds this memory database
+			gapInside = true
+			r.sh.freeze(r.entries)
+			r.emitFreeze(gapObs)
+			r.emitCommitAck(gapObs)
+			r.c.Branch("flush-completed-inside-writeRows-gap")
+		case <-time.After(1500 * time.Millisecond):
+			// the flush waits for this writer: it completes after WriteRows
+			r.c.Branch("flush-waits-for-writer")
+		}
+	}
+	h.afterWrite = func() {
+		switch {
+		case gapStarted && gapInside:
+			// rows went into the flushed and closed memory database, unless the family had nothing to
+			// flush (then Flush returned at once and the database is still the mutable one)
+			dropped := gapHadRows
+			r.onWritten(e, dropped)
+			if dropped {
+				r.lossFate[e.Seq] = keyGap
+			}
+			p := r.n.pos()
+			r.c.Op("acquire", p.String())
+			r.c.Op("write", p.String())
+		case gapStarted:
+			r.onWritten(e, false)
+			r.c.Op("freeze", gapPos.String())
+			r.c.Op("acquire", gapPos.String())
+			r.c.Op("write", gapPos.String())
+		default:
+			r.onWritten(e, false)
+			if fine {
+				p := r.n.pos()
+				r.c.Op("acquire", p.String())
+				r.c.Op("write", p.String())
+			}
+		}
+	}
+	h.beforeCommit = func() {
+		if gapStarted && !gapInside {
+			<-gapDone // gapObs is written by the flush goroutine before gapDone is closed
+			r.sh.freeze(r.entries)
+			r.emitCommitAck(gapObs)
+		}
+		if inj == injBeforeCommit {
+			if o, ok := r.runFlush(); ok {
+				r.sh.freeze(r.entries)
+				r.emitFreeze(o)
+				r.emitCommitAck(o)
+				r.c.Branch("flush-between-write-and-commit")
+			}
+		}
+	}
+	h.afterCommit = func() {
+		if fine {
+			r.c.Op("commit", r.n.pos().String())
+		}
+	}
+	ok = r.guard("apply", func() error { return r.n.applyNext(e) })
+	*h = famHooks{}
+	if !ok {
 		return
 	}
-	after := r.n.pos()
-	if after.hasSeq && after.seq == e.Seq && !(before.hasSeq && before.seq == e.Seq) {
-		r.recordApplied(e, before)
+	if valid {
+		if before.hasStored && e.Seq <= before.stored {
+			r.c.Fail(keyReplayBelow, fmt.Sprintf("entry %d was applied although the stored sequence is %d", e.Seq, before.stored))
+		}
 		r.c.Branch("apply-accepted")
 	} else {
 		r.c.Branch("apply-rejected")
 	}
-	r.c.Op("apply", after.String())
+	if !fine {
+		r.c.Op("apply", r.n.pos().String())
+	} else if !valid {
+		// rejected: Replica returned right after ValidateSequence; the remaining steps are no-ops
+		p := r.n.pos().String()
+		for _, op := range []string{"take", "acquire", "write", "commit"} {
+			r.c.Op(op, p)
+		}
+	}
 }
 
 func (r *caseRun) opFlushMeta() {
@@ -397,11 +581,114 @@ func (r *caseRun) opFlushData(crashAt int, whole bool) {
 	}
 }
 
+// opGC = one tick of lindb's write-ahead-log garbage-collect task (writeAheadLog.destroy ->
+// partition.IsExpire: queue Sync + GC, and for a family past its write window: if every consumer
+// group IsEmpty, stop + close the partition and remove its directory).
 func (r *caseRun) opGC() {
-	if !r.guard("gc", func() error { r.n.fq.Sync(); r.n.fq.Queue().GC(); return nil }) {
+	had := r.n.part != nil
+	unacked := false
+	if had {
+		p := r.n.pos()
+		unacked = p.ack < p.appended
+	}
+	if !r.guard("wal gc", r.n.walGC) {
+		return
+	}
+	if had && r.n.part == nil && unacked {
+		// the directory went away under entries that are not acknowledged: crash NOW (any later
+		// flush on this process would run the destroyed partition's ack callback)
+		r.c.Op("wgc", r.n.pos().String())
+		r.opCrash()
+		r.terminal = true
+		return
+	}
+	if r.expired {
+		r.c.Op("wgc", r.n.pos().String())
+		if had && r.n.part == nil {
+			r.c.Branch("wal-directory-removed")
+		} else if had {
+			r.c.Branch("wal-gc-kept-unacknowledged-log")
+		}
 		return
 	}
 	r.c.Op("gc 0", r.n.pos().String())
+}
+
+// table-creation crash points: the kinds of flush call an image can be taken inside of
+const (
+	innerMeta  = 0
+	innerIndex = 1
+	innerData  = 2
+)
+
+// opFlushInnerCrash runs FlushMeta / FlushIndex / family.Flush and images the node directory right
+// before the k-th table (sst) file that the call creates: the stores flushed so far are durable, this
+// one and the later ones are not. The case continues from that image and ends after replay: the
+// name-level model does not follow partially flushed dictionaries, so the call is not reported to it.
+func (r *caseRun) opFlushInnerCrash(kind int) bool {
+	k := r.innerK
+	if k < 0 {
+		k = r.rng.Intn(4)
+	}
+	n, img := 0, ""
+	var imgErr error
+	root := r.n.root
+	tableHook = func(fileName string) {
+		if !strings.HasPrefix(fileName, root) {
+			return
+		}
+		if n == k && img == "" {
+			if img, imgErr = r.newRoot(); imgErr == nil {
+				imgErr = copyTree(root, img)
+			}
+		}
+		n++
+	}
+	var ok bool
+	var fo flushObs
+	switch kind {
+	case innerMeta:
+		ok = r.guard("flush meta", r.n.flushMeta)
+	case innerIndex:
+		ok = r.guard("flush index", r.n.flushIndex)
+	default:
+		fo, ok = r.runFlush()
+	}
+	tableHook = nil
+	if !ok {
+		return false
+	}
+	if imgErr != nil {
+		r.failHarness("crash image", imgErr)
+		return false
+	}
+	if img == "" {
+		// fewer than k+1 tables were created: the call completed; report it as usual
+		switch kind {
+		case innerMeta:
+			r.sh.metric.prepare(r.sh.swapOnEmpty)
+			r.sh.tagv.prepare(r.sh.swapOnEmpty)
+			r.sh.metric.flush()
+			r.sh.tagv.flush()
+			r.c.Op("fmeta", r.n.pos().String())
+		case innerIndex:
+			r.sh.flushIndex()
+			r.c.Op("findex", r.n.pos().String())
+		default:
+			r.sh.freeze(r.entries)
+			r.emitFreeze(fo)
+			r.emitCommitAck(fo)
+		}
+		return false
+	}
+	r.c.Branch([]string{"crash-inside-FlushMeta", "crash-inside-FlushIndex", "crash-inside-family-Flush"}[kind])
+	r.terminal = true
+	r.n.close()
+	r.n = nil
+	r.sh.crash()
+	r.c.Op("crash", "down")
+	r.opRecover(img, true)
+	return true
 }
 
 // opCrash images the node directory now and continues from the image.
@@ -422,7 +709,7 @@ func (r *caseRun) crashTo(img string) {
 	r.n = nil
 	r.sh.crash()
 	r.c.Op("crash", "down")
-	r.opRecover(img)
+	r.opRecover(img, false)
 }
 
 type durableObs struct {
@@ -458,7 +745,7 @@ func (r *caseRun) observeDurable() durableObs {
 	}
 	seenM, seenP := map[int]bool{}, map[string]bool{}
 	for _, e := range r.entries {
-		sid, mid, err := r.n.resolve(e)
+		sids, mid, err := r.n.resolve(e)
 		if !seenM[e.Metric] {
 			seenM[e.Metric] = true
 			if err == nil || !(strings.HasPrefix(err.Error(), "metric:") || strings.HasPrefix(err.Error(), "schema:")) {
@@ -480,8 +767,10 @@ func (r *caseRun) observeDurable() durableObs {
 		if o.files[e.Seq] > 0 {
 			named := 0
 			if err == nil {
-				if row, ok := read(mid)[sid]; ok {
-					named = int(row[int(e.Seq)])
+				for _, sid := range sids {
+					if row, ok := read(mid)[sid]; ok {
+						named += int(row[int(e.Seq)])
+					}
 				}
 			}
 			if err != nil || named == 0 {
@@ -549,15 +838,20 @@ func (o durableObs) String() string {
 }
 
 // opRecover opens a fresh engine + partition on the image and evaluates C07's clauses on it.
-func (r *caseRun) opRecover(img string) {
+func (r *caseRun) opRecover(img string, partial bool) {
 	var n *node
-	if !r.guard("recover", func() (err error) { n, err = openNode(img, r.famTime); return err }) {
+	if !r.guard("recover", func() (err error) { n, err = openNode(img, r.famTime, r.expired); return err }) {
 		return
 	}
 	r.n = n
 	p := n.pos()
 	obs := r.observeDurable()
-	r.c.Op("recover", p.String()+" "+obs.String())
+	if partial {
+		fs := obs.String()
+		r.c.Op("recoverp", p.String()+" "+fs[:strings.Index(fs, " unres=")])
+	} else {
+		r.c.Op("recover", p.String()+" "+obs.String())
+	}
 	r.c.NonTrivial()
 
 	// clause 1: the acknowledged position in the image never exceeds the stored sequence
@@ -573,12 +867,25 @@ func (r *caseRun) opRecover(img string) {
 		if obs.files[e.Seq] > 0 {
 			continue
 		}
-		if e.Seq > p.ack {
+		if n.part != nil && e.Seq > p.ack {
 			if _, err := n.fq.Queue().Get(e.Seq); err == nil {
 				continue
 			}
 		}
+		if key, ok := r.lossFate[e.Seq]; ok {
+			r.c.Fail(key, fmt.Sprintf("entry %d is in no data file and the log is acknowledged up to %d: a whole family.Flush ran between "+
+				"GetOrCreateMemoryDatabase and AcquireWrite of its WriteRows, the rows went into the closed memory database, "+
+				"its sequence was committed and later stored and acknowledged", e.Seq, p.ack))
+			continue
+		}
+		if n.part == nil {
+			r.c.Fail(keyLost, fmt.Sprintf("entry %d is in no data file and the write-ahead log directory is gone", e.Seq))
+			continue
+		}
 		r.c.Fail(keyLost, fmt.Sprintf("entry %d is in no data file and not replayable (ack=%d appended=%d)", e.Seq, p.ack, p.appended))
+	}
+	if partial {
+		return // the dictionaries were imaged half flushed: resolution is checked after the replay (finish)
 	}
 	// clause 4: flushed data resolves by name
 	for _, s := range obs.unres {
@@ -642,10 +949,35 @@ func (r *caseRun) finish() {
 			}
 		}
 		if cnt == 0 {
-			r.c.Fail(keyNotReplayed, fmt.Sprintf("entry %d is neither in memory nor in a data file after the log was replayed", e.Seq))
+			if key, ok := r.lossFate[e.Seq]; ok {
+				r.c.Fail(key, fmt.Sprintf("entry %d is neither in memory nor in a data file after the log was replayed: a whole family.Flush ran "+
+					"between GetOrCreateMemoryDatabase and AcquireWrite of its WriteRows", e.Seq))
+			} else {
+				r.c.Fail(keyNotReplayed, fmt.Sprintf("entry %d is neither in memory nor in a data file after the log was replayed", e.Seq))
+			}
+			continue
 		}
 		if cnt > 1 {
 			r.c.Branch("obs-b-entry-stored-twice")
+		}
+		// "a query by name and tags after recovery returns all of it"
+		sids, mid, err := r.n.resolve(e)
+		named := 0
+		if err == nil {
+			v, ok := cache[mid]
+			if !ok {
+				v = r.n.readMetric(mid)
+				cache[mid] = v
+			}
+			for _, sid := range sids {
+				if row, ok := v[sid]; ok {
+					named += int(row[int(e.Seq)])
+				}
+			}
+		}
+		if err != nil || named == 0 {
+			r.c.Fail(keyNoName, fmt.Sprintf("entry %d (%s host=%s) is stored (x%d) but a lookup by metric name and tag does not return it after recovery and replay: %v",
+				e.Seq, metricName(e.Metric), tagValue(e.Tagv), cnt, err))
 		}
 	}
 }
@@ -689,45 +1021,14 @@ func (r *caseRun) witnessWedge() {
 	r.opCrash()
 }
 
-// splitApplyRace: observation (b) — Flush between WriteRows and CommitSequence of the next entry.
+// splitApplyRace: observation (b) — Flush between WriteRows and CommitSequence of the next entry,
+// inside lindb's own Replica.
 func (r *caseRun) splitApplyRace() bool {
-	e, ok := r.nextEntry()
-	if !ok {
+	if _, ok := r.nextEntry(); !ok {
 		return false
 	}
-	before := r.n.pos()
-	var sa *splitApply
-	if !r.guard("apply begin", func() (err error) { sa, err = r.n.applyBegin(e); return err }) {
-		return false
-	}
-	r.c.Op("begin", r.n.pos().String())
-	if !sa.valid {
-		// rejected: Replica returns before anything else
-		r.c.Op("write", r.n.pos().String())
-		r.c.Op("commit", r.n.pos().String())
-		return true
-	}
-	if !r.guard("apply write", func() error { return r.n.applyWrite(e, sa) }) {
-		return false
-	}
-	r.c.Op("write", r.n.pos().String())
-	// the shadow sees the row in the memory database now (its sequence is not committed yet)
-	r.sh.addNames(e)
-	r.sh.mem = append(r.sh.mem, e.Seq)
-	if id := r.n.liveIDs(e); id.ok {
-		r.ids[e.Seq] = append(r.ids[e.Seq], id)
-	}
-	r.opFlushData(noCrash, false)
-	if r.broken {
-		return false
-	}
-	r.n.applyCommit(sa)
-	r.c.Op("commit", r.n.pos().String())
-	if before.hasStored && e.Seq <= before.stored {
-		r.c.Fail(keyReplayBelow, fmt.Sprintf("entry %d was applied although the stored sequence is %d", e.Seq, before.stored))
-	}
-	r.c.Branch("flush-between-write-and-commit")
-	return true
+	r.opApplyInj(injBeforeCommit)
+	return !r.broken
 }
 
 func (r *caseRun) observationB() {
@@ -745,6 +1046,110 @@ func (r *caseRun) observationB() {
 		r.c.Note("observation (b): rows of entry 1 are in the flushed table, the stored sequence is 0; after a crash entry 1 is replayed on top of them")
 	}
 	r.opCrash()
+}
+
+// witnessGap: Neg.gapTrace on the real node — a whole family.Flush between GetOrCreateMemoryDatabase
+// and AcquireWrite of entry 1's WriteRows.
+func (r *caseRun) witnessGap() {
+	r.opAppend(0, 0)
+	r.opApply()
+	r.opFlushMeta()
+	r.opFlushIndex()
+	r.opAppend(0, 0)
+	r.opApplyInj(injGap)
+	r.opAppend(0, 0)
+	r.opApply()
+	r.opFlushMeta()
+	r.opFlushIndex()
+	r.opFlushData(noCrash, false)
+	r.opCrash()
+}
+
+// flushInsideReplica: a whole flush after ValidateSequence and before WriteRows of entry 1, with
+// entry 0 still unflushed in the memory database, then a crash (the schedule that exposes a
+// sequence committed before its rows are written).
+func (r *caseRun) flushInsideReplica() {
+	r.opAppend(0, 0)
+	r.opApply()
+	r.opFlushMeta()
+	r.opFlushIndex()
+	r.opAppend(0, 0)
+	r.opApplyInj(injBeforeWrite)
+	r.opCrash()
+}
+
+// crashInsideIndexFlush: a series that is new in this round; the node dies inside shard.FlushIndex
+// right before the k-th table file it creates (k = 0..3: metric postings, forward, inverted, series
+// dictionary); restart, replay: the entry must be found by metric name and tag.
+func (r *caseRun) crashInsideIndexFlush(k int) {
+	r.opAppend(0, 0)
+	r.opApply()
+	r.opFlushMeta()
+	r.innerK = k
+	if !r.opFlushInnerCrash(innerIndex) {
+		r.opFlushData(noCrash, false)
+		r.opCrash()
+	}
+}
+
+// expiredFamily: the WAL garbage collector on a family whose write window closed hours ago.
+func (r *caseRun) stop() bool { return r.broken || r.tainted || r.terminal || r.n == nil }
+
+func (r *caseRun) expiredFamily() {
+	rng := r.rng
+	n := 1 + rng.Intn(3)
+	for i := 0; i < n; i++ {
+		r.opAppend(200+i, rng.Intn(2))
+	}
+	r.applyAll()
+	r.opGC() // consumed but not flushed: the log must stay
+	if r.stop() {
+		return
+	}
+	if rng.Intn(2) == 0 {
+		r.opCrash()
+		if r.stop() {
+			return
+		}
+		r.applyAll()
+		r.opGC()
+		if r.stop() {
+			return
+		}
+	}
+	if rng.Intn(3) == 0 {
+		r.opAppend(300, 0) // appended, not even consumed
+		r.opGC()
+		if r.stop() {
+			return
+		}
+		r.applyAll()
+	}
+	r.opFlushMeta()
+	r.opFlushIndex()
+	crashAt := []int{noCrash, noCrash, crashMid, crashAck}[rng.Intn(4)]
+	r.opFlushData(crashAt, false)
+	if r.stop() {
+		return
+	}
+	r.applyAll()
+	if crashAt == crashMid {
+		// the image had the data committed but not acknowledged; recovery acknowledged it
+		r.opGC()
+	}
+	r.opGC() // everything acknowledged: the directory may go
+	if rng.Intn(2) == 0 {
+		r.opGC()
+	}
+	r.opCrash()
+	if r.stop() {
+		return
+	}
+	r.opFlushMeta()
+	r.opGC()
+	if rng.Intn(2) == 0 {
+		r.opCrash()
+	}
 }
 
 // ---------------------------------------------------------------- random histories
@@ -781,7 +1186,7 @@ func (r *caseRun) randomCase(disciplined bool) {
 	}
 	crashes := 0
 	maybeCrash := func(p int) bool {
-		if r.broken || r.tainted || crashes >= 3 || rng.Intn(100) >= p {
+		if r.broken || r.tainted || r.terminal || crashes >= 3 || rng.Intn(100) >= p {
 			return false
 		}
 		crashes++
@@ -791,7 +1196,25 @@ func (r *caseRun) randomCase(disciplined bool) {
 		}
 		return true
 	}
-	for i := 0; i < nOps && !r.broken && !r.tainted && len(r.entries) < 300; i++ {
+	// an entry with names that existed before the running round, applied with a whole flush placed
+	// inside lindb's Replica
+	injected := func() bool {
+		if r.n.pending() || len(known) == 0 {
+			return false
+		}
+		p := known[rng.Intn(len(known))]
+		r.opAppend(p[0], p[1])
+		switch x := rng.Intn(20); {
+		case x < 9:
+			r.opApplyInj(injBeforeWrite)
+		case x < 18:
+			r.opApplyInj(injBeforeCommit)
+		default:
+			r.opApplyInj(injGap)
+		}
+		return true
+	}
+	for i := 0; i < nOps && !r.broken && !r.tainted && !r.terminal && len(r.entries) < 300; i++ {
 		switch k := rng.Intn(100); {
 		case k < 40:
 			m, t := pick()
@@ -862,7 +1285,16 @@ func (r *caseRun) randomCase(disciplined bool) {
 				maybeCrash(15)
 				continue
 			}
-			r.opFlushMeta()
+			// a crash INSIDE one of the three flush calls (before the k-th table file it creates) ends the case
+			inner := -1
+			if disciplined && rng.Intn(5) == 0 {
+				inner = rng.Intn(3)
+			}
+			if inner == innerMeta && r.opFlushInnerCrash(innerMeta) {
+				continue
+			} else if inner != innerMeta {
+				r.opFlushMeta()
+			}
 			if maybeCrash(8) {
 				continue
 			}
@@ -870,7 +1302,11 @@ func (r *caseRun) randomCase(disciplined bool) {
 			if r.broken {
 				break
 			}
-			r.opFlushIndex()
+			if inner == innerIndex && r.opFlushInnerCrash(innerIndex) {
+				continue
+			} else if inner != innerIndex {
+				r.opFlushIndex()
+			}
 			if maybeCrash(8) {
 				continue
 			}
@@ -878,11 +1314,12 @@ func (r *caseRun) randomCase(disciplined bool) {
 			if r.broken {
 				break
 			}
-			if rng.Intn(5) == 0 && !r.n.pending() && len(known) > 0 {
-				// flush racing replication: Flush between WriteRows and CommitSequence of an entry with old names
-				p := known[rng.Intn(len(known))]
-				r.opAppend(p[0], p[1])
-				r.splitApplyRace()
+			if inner == innerData {
+				if r.opFlushInnerCrash(innerData) {
+					continue
+				}
+			} else if rng.Intn(4) == 0 && injected() {
+				// the flush of this round ran inside Replica
 			} else {
 				if crashAt != noCrash {
 					crashes++
@@ -895,7 +1332,7 @@ func (r *caseRun) randomCase(disciplined bool) {
 			maybeCrash(15)
 		}
 	}
-	if !r.broken && !r.tainted && rng.Intn(2) == 0 {
+	if !r.broken && !r.tainted && !r.terminal && rng.Intn(2) == 0 {
 		r.opCrash()
 	}
 }
@@ -913,14 +1350,19 @@ func (area) Run(c *core.Ctx) error {
 		swap = true
 	}
 	now := time.Now().UnixMilli()
-	famTime := now - now%3600000
+	hour := now - now%3600000
 	for i := 0; i < c.N; i++ {
 		if !c.Want(i) {
 			continue
 		}
 		c.Begin(i)
-		r := &caseRun{c: c, rng: c.Rng(i), famTime: famTime, ids: map[int64][]ids{},
+		r := &caseRun{c: c, rng: c.Rng(i), famTime: hour, ids: map[int64][]ids{}, lossFate: map[int64]string{},
 			sh: &shadow{metric: newDict(), tagv: newDict(), index: newDict(), swapOnEmpty: swap, fate: map[int64]string{}, idxFate: map[string]string{}}}
+		r.innerK = -1
+		if i == 5 || (i > 9 && i%8 == 6) {
+			// a family whose hour ended 5 hours ago: with ahead = 1h it is past its write window
+			r.expired, r.famTime = true, hour-6*3600000
+		}
 		func() {
 			defer r.cleanup()
 			if !r.start() {
@@ -936,6 +1378,18 @@ func (area) Run(c *core.Ctx) error {
 			case i == 2:
 				c.Branch("observation-b")
 				r.observationB()
+			case i == 3:
+				c.Branch("witness-gap")
+				r.witnessGap()
+			case i == 4:
+				c.Branch("flush-inside-replica")
+				r.flushInsideReplica()
+			case r.expired:
+				c.Branch("expired-family")
+				r.expiredFamily()
+			case i >= 6 && i <= 9:
+				c.Branch("crash-inside-index-flush-scripted")
+				r.crashInsideIndexFlush(i - 6)
 			case i%4 == 3:
 				c.Branch("wild")
 				r.randomCase(false)
